@@ -203,10 +203,11 @@ theorem new_total (t : Tri) (w : Nat) (off : StrokeOffset) (fill : Bool) (bb : R
 def mu (it : TriScanlines) : Nat :=
   3 * (it.rowsEnd - it.rowsStart).toNat + TriIntersections.m it.intersections
 
-/-- `ScanlineIterator::next` is total, and every scanline it returns lowers `mu`. -/
+/-- `ScanlineIterator::next` (as a loop sees it) is total, and every scanline it returns lowers `mu`. -/
 theorem next_spec (it : TriScanlines) :
-    ∃ r, it.next = some r ∧ ∀ x it', r = some (x, it') → mu it' < mu it := by
-  unfold TriScanlines.next
+    ∃ r, it.nextLoop = some r ∧ ∀ x it', r = some (x, it') → mu it' < mu it := by
+  rw [TriScanlines.nextLoop_eq_def]
+  unfold TriScanlines.nextLoopDef
   cases h : it.intersections.next with
   | some p =>
     obtain ⟨r, ints⟩ := p
@@ -236,6 +237,15 @@ theorem next_spec (it : TriScanlines) :
         dsimp only
         omega
     · exact ⟨_, rfl, fun x it' hx => by cases hx⟩
+
+/-- The non-fused `ScanlineIterator::next` is total. -/
+theorem next_total (it : TriScanlines) : ∃ r, it.next = some r := by
+  obtain ⟨r, hr, -⟩ := next_spec it
+  have h := TriScanlines.next_isSome_iff it
+  rw [hr] at h
+  cases hn : it.next with
+  | none => rw [hn] at h; cases h
+  | some r => exact ⟨r, rfl⟩
 
 theorem toListFuel_total : ∀ (fuel : Nat) (it : TriScanlines), ∃ l, it.toListFuel fuel = some l := by
   intro fuel
@@ -280,14 +290,10 @@ namespace TriPixels
 
 theorem new_total (t : Tri) (style : TriStyle) : ∃ it, TriPixels.new t style = some it := by
   obtain ⟨li, hli⟩ := triScanlines_total t style
-  obtain ⟨r, hr, -⟩ := TriScanlines.next_spec li
+  obtain ⟨r, hr⟩ := TriScanlines.next_total li
   unfold TriPixels.new
   simp only [hli, hr, Option.bind_eq_bind, Option.bind_some]
-  cases r with
-  | none => exact ⟨_, rfl⟩
-  | some p =>
-    obtain ⟨⟨l, ty⟩, it⟩ := p
-    exact ⟨_, rfl⟩
+  exact ⟨_, rfl⟩
 
 /-- The `loop` of `next` never exhausts fuel above `mu` of the scanline iterator. -/
 theorem nextFuel_total : ∀ (fuel : Nat) (it : TriPixels), TriScanlines.mu it.linesIter < fuel →
@@ -337,12 +343,20 @@ theorem toListFuel_total : ∀ (fuel : Nat) (it : TriPixels), ∃ l, it.toListFu
 
 end TriPixels
 
+theorem triPixelFuel_total (t : Tri) (style : TriStyle) : ∃ n, triPixelFuel t style = some n := by
+  obtain ⟨it, hit⟩ := triScanlines_total t style
+  obtain ⟨l, hl⟩ := TriScanlines.toListFuel_total (3 * ((it.rowsEnd - it.rowsStart).toNat + 1) + 1) it
+  have hl' : it.toList = some l := hl
+  unfold triPixelFuel
+  simp only [hit, hl', Option.bind_eq_bind, Option.bind_some, pure]
+  exact ⟨_, rfl⟩
+
 /-- **`pixels()` of a styled triangle is total** (every stroke width, alignment and fill). -/
 theorem triPixels_total (t : Tri) (style : TriStyle) : ∃ px, triPixels t style = some px := by
-  obtain ⟨bb, hbb⟩ := triStyledBoundingBox_total t style
+  obtain ⟨n, hn⟩ := triPixelFuel_total t style
   obtain ⟨it, hit⟩ := TriPixels.new_total t style
   unfold triPixels
-  simp only [hbb, hit, Option.bind_eq_bind, Option.bind_some]
+  simp only [hn, hit, Option.bind_eq_bind, Option.bind_some]
   exact TriPixels.toListFuel_total _ it
 
 end Joins
